@@ -79,6 +79,19 @@ def known_finding_lines(pid, kf, results):
         if pid not in f.get('properties', []):
             continue
         w = f['witness']
+        if w.get('kind') == 'op':
+            try:
+                o = witness.batch([{'op': w['op']}])[0]
+                case = next((c for c in o.get('cases', []) if c.get('case') == w['case']), None)
+                still = case is not None and not case.get('matches', True)
+            except Exception as e:
+                lines.append(f"KNOWN-FINDING: property={pid} {f['id']} (witness could not be replayed: {type(e).__name__}) {f['what']}")
+                continue
+            if still:
+                lines.append(f"KNOWN-FINDING: property={pid} {f['id']} {f['what']}")
+            else:
+                lines.append(f"NOTE: property={pid} known finding {f['id']} no longer reproduces on this tree (stale entry in known_findings.json)")
+            continue
         try:
             got = witness.run_history(w['steps'])
             actual = got.get('files', {}).get(w['file'])
@@ -106,6 +119,30 @@ def thorough_extras(pid, units, seed):
             out['undecided'].append('trusted std contract refuted by the real std: ' + json.dumps(r['first_mismatches'][:2])[:400])
     except Exception as e:
         out['report']['std_contract_conformance'] = {'error': f'{type(e).__name__}: {e}'}
+    # bounded cross-check of the proofs' trusted base against the real code: the inputs and histories of the witness search are
+    # run on the unchanged code behind the contracts; the property-level oracles must agree everywhere. A disagreement means the
+    # real code violates the property on a concrete input although every obligation was discharged (an unsound rewrite, a wrong
+    # std contract, or a defect in code outside the contracts): reported with its replay file.
+    cross = {}
+    from driver import witness as _w
+    done = {}
+    for unit in units:
+        f = _w.SEARCHERS.get(unit)
+        if not f or pid not in _w.SPEAKS_FOR.get(f.__name__, ()):
+            cross[unit] = 'no oracle for this unit / property'
+            continue
+        if f.__name__ in done:
+            cross[unit] = done[f.__name__] + f' (same search as unit {[u for u in cross if cross[u] == done[f.__name__]][0]})' if False else done[f.__name__]
+            continue
+        try:
+            path, found = make_standin_replay(pid, unit, ['thorough tier: cross-check of the discharged contracts against the real code'], seed)
+            cross[unit] = 'disagreement: ' + path if found else f'no disagreement ({f.__name__})'
+            if found:
+                out['violations'].append(f'VIOLATION property={pid} replay={path}')
+        except Exception as e:
+            cross[unit] = f'not run ({type(e).__name__}: {e})'
+        done[f.__name__] = cross[unit]
+    out['report']['bounded_cross_check'] = {'bound': 'finite alphabets / histories of driver/witness.py (labelled bounded, not counted as proved)', 'units': cross}
     return out
 
 
